@@ -18,3 +18,29 @@ pub open spec fn comment_appended(a: &TreeBuilder, b: &TreeBuilder, r: ProcessRe
     r is Done && *b == (TreeBuilder { sink: Sink { created: Ghost(a.sink.created@ + 1),
         dom: Ghost(a.sink.dom@.push(DomOp::CreateComment(c, text.s@)).push(DomOp::Append(parent, NodeOrText::AppendNode(c)))), ..a.sink }, ..*a })
 }
+/// markup5ever::interface::create_element (ASSUMED): create_element_with_flags without the duplicate-attribute flag
+#[verifier::external_body]
+pub fn create_element(sink: &mut Sink, name: QualName, attrs: Vec<Attribute>) -> (r: Handle)
+    ensures
+        r == fresh_handle(old(sink).created@), elem_name_of(r) == (ExpandedName { ns: name.ns, local: name.local }),
+        *final(sink) == (Sink { created: Ghost(old(sink).created@ + 1),
+                                dom: Ghost(old(sink).dom@.push(DomOp::Create(r, ExpandedName { ns: name.ns, local: name.local }, attrs@, false))), ..*old(sink) }),
+{ unimplemented!() }
+/// "create an html element, append it to the Document object, put it on the stack of open elements"
+pub open spec fn root_created(a: &TreeBuilder, b: &TreeBuilder, attrs: Seq<Attribute>) -> bool {
+    let e = fresh_handle(a.sink.created@);
+    &&& *b == (TreeBuilder { open_elems: b.open_elems, sink: b.sink, mode: b.mode, ..*a }) && b.stack() == a.stack().push(e) && elem_name_of(e) == html_name(local_name!("html"))
+    &&& b.sink == (Sink { created: Ghost(a.sink.created@ + 1),
+            dom: Ghost(a.sink.dom@.push(DomOp::Create(e, html_name(local_name!("html")), attrs, false)).push(DomOp::Append(a.doc_handle, NodeOrText::AppendNode(e)))), ..a.sink })
+}
+pub open spec fn is_any_end(token: Token) -> bool { token matches Token::Tag(t) && t.kind == TagKind::EndTag }
+/// "after head", a head-level start tag: parse error; push the head element; process by the "in head" rules (from state m0 to
+/// state s.0 with result s.1); remove the head element from the stack
+pub open spec fn after_head_in_head(a: &TreeBuilder, m0: TreeBuilder, s: (TreeBuilder, ProcessResult), b: &TreeBuilder, r: ProcessResult) -> bool {
+    let head = a.head_elem.v.unwrap();
+    let m1 = s.0;
+    &&& r == s.1
+    &&& m0.stack() == a.stack().push(head) && m0.same_but_stack(a) && m0.sink.errs@ == a.sink.errs@ + 1 && sink_quiet(m0.sink, a.sink)
+    &&& b.same_but_stack(&m1) && sink_quiet(b.sink, m1.sink) && b.sink.errs == m1.sink.errs
+    &&& b.stack() == (match seq_rposition(m1.stack(), is_handle(head), m1.stack().len() as int) { Some(k) => m1.stack().remove(k as int), None => m1.stack() })
+}
